@@ -495,6 +495,10 @@ func (x *Exec) assumeObjKind(v *Term, t types.Type) {
 		return
 	}
 	tn := typeName(p.Elem())
+	if _, isStruct := p.Elem().Underlying().(*types.Struct); isStruct {
+		// objects of different struct types are different objects
+		x.addFactRaw(x.tt.Or(x.tt.Eq(v, x.tt.IntLit(0)), x.tt.Eq(x.tt.UF("typeOfObj$", "Int", v), x.tidLit(p.Elem()))))
+	}
 	isv := x.tt.UF("isval$", "Bool", v)
 	if x.isValidatorTypeName(tn) {
 		x.addFactRaw(x.tt.Or(x.tt.Eq(v, x.tt.IntLit(0)), isv))
@@ -694,3 +698,23 @@ func typeName(t types.Type) string {
 
 var reAny = regexp.MustCompile(`\bany\b`)
 
+
+// objKindFact: the facts assumeObjKind would add, as a term.
+func (x *Exec) objKindFact(v *Term, t types.Type) *Term {
+	tt := x.tt
+	p, ok := t.Underlying().(*types.Pointer)
+	if !ok || len(x.prog.Cons.ValidatorTypes) == 0 {
+		return tt.True()
+	}
+	var cs []*Term
+	if _, isStruct := p.Elem().Underlying().(*types.Struct); isStruct {
+		cs = append(cs, tt.Or(tt.Eq(v, tt.IntLit(0)), tt.Eq(tt.UF("typeOfObj$", "Int", v), x.tidLit(p.Elem()))))
+		isv := tt.UF("isval$", "Bool", v)
+		if x.isValidatorTypeName(typeName(p.Elem())) {
+			cs = append(cs, tt.Or(tt.Eq(v, tt.IntLit(0)), isv))
+		} else {
+			cs = append(cs, tt.Not(isv))
+		}
+	}
+	return tt.And(cs...)
+}
